@@ -119,7 +119,8 @@ class Interp:
         m = {"cls": cls, "xp": xp, "bits": bits, "x": x, **arrs, "parameters": kw["parameters"], "log_w": None,
              "log_evidence": None, "log_evidence_error": None, "beta": None}
         if cls == "SMCSamples":
-            kw["beta"] = m["beta"] = 0.25
+            # the temperature of the initial population (exactly 0.0), an intermediate one, the final one (exactly 1.0)
+            kw["beta"] = m["beta"] = (0.0, 0.25, 1.0)[seed % 3]
         if cls in ("Samples", "SMCSamples") and evidence:
             kw["log_evidence"] = -3.5
             kw["log_evidence_error"] = 0.125
